@@ -15,7 +15,7 @@ from .verifier import Verifier
 from . import solve
 from . import lemmas
 
-CONTRACT_MODULES = ["schedule", "basic_schedules", "multistage", "twolevel"]
+CONTRACT_MODULES = ["schedule", "basic_schedules", "multistage", "twolevel", "mixed"]
 VERIF = os.path.dirname(os.path.dirname(os.path.abspath(__file__)))
 
 
@@ -116,6 +116,70 @@ def attach_spec_axioms(reg, obligations):
                 ob.pc.append(f)
 
 
+def _describe_inputs(inputs):
+    """Names of the solver symbols that stand for the function's inputs (for read-back)."""
+    from .values import Opt, EnumV
+    out = {}
+    for label, v in (inputs or {}).items():
+        if isinstance(v, Opt):
+            if z3.is_expr(v.isnone) and z3.is_expr(v.val):
+                out[label] = {"opt": [str(v.isnone), str(v.val)]}
+        elif isinstance(v, EnumV):
+            if z3.is_expr(v.code):
+                out[label] = {"enum": v.sort, "code": str(v.code)}
+        elif z3.is_expr(v) and z3.is_const(v):
+            out[label] = {"sym": str(v), "bool": z3.is_bool(v)}
+    return out
+
+
+def replay_job(reg, ob, model):
+    """Build the native replay job of rtc/replay_fn.py from a failed obligation."""
+    c = reg.contracts.get(ob["function"])
+    if c is None or c.hooks is not None or ob["function"].startswith("ghost."):
+        return None
+    model = model or {}
+
+    def val(desc):
+        if "sym" in desc:
+            return model.get(desc["sym"], False if desc.get("bool") else 0)
+        if "opt" in desc:
+            none = model.get(desc["opt"][0], False)
+            return None if none else model.get(desc["opt"][1], 0)
+        if "enum" in desc:
+            code = model.get(desc["code"], 0)
+            if desc["enum"] == "str":
+                try:
+                    return reg.string_of(code)
+                except Exception:
+                    return "<other>"
+            return code
+        return None
+    params, fields, present = {}, {}, {}
+    for label, desc in ob.get("inputs", {}).items():
+        if label.startswith("self.?"):
+            present[label[len("self.?"):]] = val(desc)
+        elif label.startswith("self."):
+            fields[label[len("self."):]] = val(desc)
+        elif "." not in label:
+            params[label] = val(desc)
+    for f, p in present.items():
+        if not p:
+            fields[f] = "__absent__"
+    kwonly = []
+    types = {k: v for k, v in c.params.items() if isinstance(v, str)}
+    ftypes = {}
+    if c.self_class:
+        ftypes = {k: (v[1:] if isinstance(v, str) and v.startswith("?") else v)
+                  for k, v in reg.fields_of(c.self_class).items() if isinstance(v, str)}
+    return {"function": ob["function"], "class": c.self_class, "params": params, "self_fields": fields,
+            "kwonly": kwonly, "types": types, "field_types": ftypes,
+            "requires": [[l, e] for l, e in c.requires] +
+                        ([[l, e] for l, e in reg.invariant_of(c.self_class)]
+                         if c.self_class and c.short != "__init__" else []),
+            "ensures": [[l, e] for l, e, _ in c.ensures], "raises": [[e, x] for e, x in c.raises],
+            "raises_unchanged": c.raises_unchanged, "clause": ob.get("clause")}
+
+
 def _gen_worker(job):
     """One function per worker: generate its obligations and serialise them to SMT-LIB."""
     repo, name = job
@@ -132,6 +196,7 @@ def _gen_worker(job):
                 "trivial": bool(getattr(ob, "trivial", False)),
                 "vacuous": bool(getattr(ob, "vacuous", False)),
                 "uses_specs": list(getattr(ob, "uses_specs", []) or []),
+                "inputs": _describe_inputs(ob.inputs),
                 "smt2": None if (getattr(ob, "trivial", False) or getattr(ob, "vacuous", False))
                 else solve.to_smt2(ob.pc, ob.goal)})
         covers = []
@@ -224,6 +289,7 @@ def summarize(reg, recs, obligations, res, covers, props=None, ledger=None):
         out.append({"name": ob["name"], "props": ob["props"], "status": status, "backend": rs["backend"],
                     "time_s": rs["time_s"], "model": rs["model"], "clause": ob["clause"], "loc": ob["loc"],
                     "function": ob["function"], "kind": ob["kind"], "path": ob["path"],
+                    "inputs": ob.get("inputs", {}),
                     "solver_output": None if rs["status"] != "unknown" else json.dumps(rs["model"])})
     if props:
         out = [o for o in out if set(o["props"]) & set(props)]
@@ -254,7 +320,7 @@ def functions_for(reg, prop):
 
 
 def run_property(prop, tier="quick", seed=0, repo="/repo"):
-    timeout = 20 if tier == "quick" else 60
+    timeout = 30 if tier == "quick" else 90
     reg0 = build_registry()
     names = functions_for(reg0, prop)
     if not names:
@@ -264,6 +330,33 @@ def run_property(prop, tier="quick", seed=0, repo="/repo"):
     out["assumptions"] = ["assumed contract: %s (%s)" % (n, c.note) for n, c in reg.contracts.items()
                           if c.assumed]
     out["solve_wall_s"] = round(wall, 2)
+    for o in out["obligations"]:
+        if o["status"] in ("failed", "unknown") and o.get("model"):
+            o["replay_job"] = replay_job(reg, o, o["model"])
+    return out
+
+
+def run_all(tier="quick", seed=0, repo="/repo"):
+    """One VC run for every property (used by `check all` and by the ledger generator)."""
+    timeout = 30 if tier == "quick" else 90
+    reg, recs, obligations, res, covers, wall = verify(repo=repo, timeout_s=timeout)
+    out = summarize(reg, recs, obligations, res, covers)
+    out["assumptions"] = ["assumed contract: %s (%s)" % (n, c.note) for n, c in reg.contracts.items()
+                          if c.assumed]
+    out["solve_wall_s"] = round(wall, 2)
+    for o in out["obligations"]:
+        if o["status"] in ("failed", "unknown") and o.get("model"):
+            o["replay_job"] = replay_job(reg, o, o["model"])
+    return out
+
+
+def split_by_property(full, prop):
+    out = dict(full)
+    out["obligations"] = [o for o in full["obligations"] if prop in o["props"]]
+    names = set(o["function"] for o in out["obligations"])
+    out["functions"] = [f for f in full["functions"] if f["name"] in names or prop in f.get("props", [])]
+    if not out["obligations"]:
+        out["no_vc_expected"] = True
     return out
 
 
